@@ -1563,6 +1563,9 @@ func main() {
 			"queries whose patterns the model covers are also compared with the Coq model (exact returned list); plus fs.Match on pattern x path pairs and toRegexString on generated strings; " +
 			"plus histories of 2-5 Glob calls on ONE Globber over 1-3 roots of one tree (hidden entries planted; a third repeat the previous query with the hidden flag flipped), compared call by call with a fresh Globber (cache transparency), " +
 			"cache entry by cache entry with a fresh walk, with the model's state machine (results and final walkedDirs through the hook), and for one-package histories with the same calls written as a BUILD file and run through the asp interpreter. " +
+			"Unusual build file entries are generated throughout: a quarter of the sub-directories are sub-packages, a third of their build files are symbolic links (to a sibling or a template outside), a quarter hold both configured names; the package directory holds BUILD, BUILD.plz or both. " +
+			"plus generated queries written as a BUILD file and run through the real asp glob() builtin in process with Parse.BuildFileName = [BUILD, BUILD.plz] (hook asp.VerifC21Glob; package parsed from the first configured name present; half of the package directories hold both names), " +
+			"compared with the reference in which build file names are never sources, with fs.Globber.Glob given the excludes plus the build file names (exact list), and with the model's glob_builtin. " +
 			"distinct = distinct (tree, query); non-trivial = tree with >= 3 entries and a non-empty result")
 
 		var rq struct {
